@@ -6,7 +6,7 @@ ROOT="$(cd "$(dirname "${BASH_SOURCE[0]}")/.." && pwd)"
 export VERIF_ROOT="$ROOT"
 cd "$ROOT/sim" && cargo build --release --offline >/dev/null 2>&1 || { echo build failed; exit 2; }
 for SEED in "$@"; do
-  for P in C01 C02 C03 C04 C05 C06 C07 C09 C10 C11 C12 C13 C14 C15 C16 C17 C18 C19 C20; do
+  for P in ${SWEEP_PROPS:-C01 C02 C03 C04 C05 C06 C07 C09 C10 C11 C12 C13 C14 C15 C16 C17 C18 C19 C20}; do
     OUT=$("$ROOT/sim/target/release/gwsim" batch --prop $P --tier $TIER --seed $SEED ${SWEEP_ARGS:-} 2>&1)
     RC=$?
     echo "seed=$SEED $P rc=$RC $(echo "$OUT" | grep 'gwsim batch' | cut -c1-160)"
